@@ -2,6 +2,7 @@ use crate::ctx::{machinery, Tier};
 use serde_json::Value;
 
 pub mod c01;
+pub mod c02;
 pub mod c03;
 pub mod c04;
 pub mod c05;
@@ -20,6 +21,7 @@ pub mod common;
 pub fn run(id: &str, tier: Tier) -> i32 {
     match id {
         "C01" => c01::run(tier),
+        "C02" => c02::run(tier),
         "C03" => c03::run(tier),
         "C04" => c04::run(tier),
         "C05" => c05::run(tier),
@@ -45,6 +47,7 @@ pub fn replay(id: &str, path: &str) -> i32 {
     let once = |_: u8| -> Result<(), String> {
         match id {
             "C01" => c01::replay(case),
+            "C02" => c02::replay(case),
             "C03" => c03::replay(case),
             "C04" => c04::replay(case),
             "C05" => c05::replay(case),
